@@ -338,8 +338,8 @@ impl Property for C15 {
     }
     fn cases(&self, tier: Tier) -> usize {
         match tier {
-            Tier::Quick => 1500,
-            Tier::Thorough => 30000,
+            Tier::Quick => 9000,
+            Tier::Thorough => 54000,
         }
     }
     fn tape_len(&self, _t: Tier) -> usize {
